@@ -117,6 +117,13 @@ CHECKS = {
         'bound lemmas for ANY length: C15_sum_no_overflow (count*2^(n-1) <= 2^(n-1+ceil(log2 count))) and C15_dot_no_overflow (via the product bound of C07); C15_accumulation_exact. PARTIAL: prod / cumprod / cumsum / trace / model-level dot are modelled (Reduce.v) but not theorems; '
         'max / min / sort / clip / transpose / diagonal only select or rearrange codes. Tie: shapes to 3x3 / length 8, formats to 12 bits, extremes and random codes, both call routes, every axis; values, shape, growth rule, flags, type; model comparison for 1-D sum / cumsum / prod / dot. The dispatch glue itself has no model.',
    design='7/C15', technique='Coq proof (sum exactness, no-overflow bounds for any length) + differential correspondence'),
+
+ 'C20': dict(
+   text='Proof: a location-based alias model (each object = configuration, status record, value buffer, callbacks list; every derivation route allocates all fresh, indexing views the parent buffer) satisfies a separation invariant after histories of ANY length '
+        '(C20_separation_invariant, by induction over the list of derivations) and therefore mutating one object is invisible to every other, the one exception being an in-place value write inside a view family (C20_independent). The allocation table is an assumption of the model that the tie checks: '
+        'for 17 routes the harness compares `is` / np.shares_memory identity facts with the table, runs random derive-then-mutate histories and verifies that no other object changes (value, status, configuration), checks x[i][j]=v write-through, '
+        'compares input containers (lists, tuples, nested, ndarrays, bin/hex/decimal string lists) before/after by three store routes, and tries every invalid configuration value through attribute, keyword and update (finite enumeration).',
+   design='7/C20', technique='Coq proof (separation invariant over histories) + behavioural and identity correspondence'),
 }
 NA_REASON = 'check not built yet (work in progress; see DESIGN.md section 10 order of work)'
 def main():
